@@ -3,6 +3,8 @@ package main
 import (
 	"math"
 
+	"github.com/oasisprotocol/oasis-core/go/common/crypto/signature"
+
 	beacon "github.com/oasisprotocol/oasis-core/go/beacon/api"
 	"github.com/oasisprotocol/oasis-core/go/common/cbor"
 	"github.com/oasisprotocol/oasis-core/go/common/quantity"
@@ -101,6 +103,31 @@ func (w *world) stakingTxs() []txT {
 	}
 }
 
+// chainedTxs: entities delegating to each other (an escrow account that is itself a delegator
+// elsewhere) and the matching reclaims; used by a scripted prefix and one multi-transaction letter.
+func (w *world) chainedTxs() []txT {
+	k := w.keys
+	E := func(i int) staking.Address { return staking.NewAddress(k.Entities[i].Public()) }
+	esc := func(name string, s signature.Signer, to staking.Address, amt uint64) txT {
+		return txT{Name: name, Signer: s, Method: staking.MethodAddEscrow, Body: staking.Escrow{Account: to, Amount: qq(amt)}}
+	}
+	rec := func(name string, s signature.Signer, from staking.Address, sh uint64) txT {
+		return txT{Name: name, Signer: s, Method: staking.MethodReclaimEscrow, Body: staking.ReclaimEscrow{Account: from, Shares: qq(sh)}}
+	}
+	return []txT{
+		esc("escrow(e1->e0,400)", k.Entities[1], E(0), 400),
+		esc("escrow(e0->e1,200)", k.Entities[0], E(1), 200),
+		esc("escrow(e2->e1,300)", k.Entities[2], E(1), 300),
+		esc("escrow(a0->e1,100)", k.Accounts[0], E(1), 100),
+		esc("escrow(a1->e1,333)chain", k.Accounts[1], E(1), 333),
+		rec("reclaim(e1<-e0,400sh)", k.Entities[1], E(0), 400),
+		rec("reclaim(e0<-e1,200sh)", k.Entities[0], E(1), 200),
+		rec("reclaim(e2<-e1,300sh)", k.Entities[2], E(1), 300),
+		rec("reclaim(a0<-e1,100sh)", k.Accounts[0], E(1), 100),
+		rec("reclaim(a1<-e1,333sh)", k.Accounts[1], E(1), 333),
+	}
+}
+
 // envLetters: every non-default value of each environment dimension, with an
 // empty tx list and with one representative tx.
 func envLetters(rep txT) []letter {
@@ -149,6 +176,14 @@ func (w *world) alphabet(profile string) []letter {
 		pick("transfer(a0->a1,10,fee2)", "burn(a1,7,fee1)", "escrow(a0->e0,50)", "reclaim(a0<-e0,100sh)", "reclaim(e1<-e1,1000sh)", "allow(a0->a1,+30)", "withdraw(a1<-a0,20)", "amend-commission(e0)", "gov-submit-upgrade(e0)", "gov-vote(e2,#1,yes)", "transfer(a0->a1,balance+1)")
 		ls = append(ls, letter{Name: "2tx: transfer+burn", Txs: []txT{txs[0], txs[10]}})
 		ls = append(ls, envLetters(txs[0])...)
+	}
+	if len(w.opts.Prefix) > 0 && w.opts.Prefix[0] == "escrow(e1->e0,400)" {
+		// the chained-escrow universe: all five reclaims in one block (same debonding end epoch), and singly
+		ct := w.chainedTxs()
+		ls = append(ls, letter{Name: "5tx: chained reclaims", Txs: ct[5:]})
+		for _, t := range ct[5:] {
+			ls = append(ls, letter{Name: t.Name, Txs: []txT{t}})
+		}
 	}
 	if w.opts.Vault {
 		// a vault exists at genesis (see chain.GenesisOptions.Vault): withdrawals through the vault's
